@@ -801,7 +801,7 @@ static void gen_expr(Node *node) {
     Member *mem = node->member;
     if (mem->is_bitfield) {
       println("  shl $%d, %%rax", 64 - mem->bit_width - mem->bit_offset);
-      if (mem->ty->is_unsigned)
+      if (mem->ty->is_unsigned || mem->ty->kind == TY_BOOL)
         println("  shr $%d, %%rax", 64 - mem->bit_width);
       else
         println("  sar $%d, %%rax", 64 - mem->bit_width);
@@ -821,24 +821,34 @@ static void gen_expr(Node *node) {
     gen_expr(node->rhs);
 
     if (node->lhs->kind == ND_MEMBER && node->lhs->member->is_bitfield) {
-      println("  mov %%rax, %%r8");
-
       // If the lhs is a bitfield, we need to read the current value
-      // from memory and merge it with a new value.
+      // from memory and merge it with a new value. The mask does not
+      // fit in a 32-bit immediate if the bitfield is 32 bits or wider.
       Member *mem = node->lhs->member;
+      unsigned long ones =
+        (mem->bit_width >= 64) ? -1UL : (1UL << mem->bit_width) - 1;
       println("  mov %%rax, %%rdi");
-      println("  and $%ld, %%rdi", (1L << mem->bit_width) - 1);
+      println("  mov $%ld, %%r9", (long)ones);
+      println("  and %%r9, %%rdi");
+      println("  mov %%rdi, %%r8");
       println("  shl $%d, %%rdi", mem->bit_offset);
 
       println("  mov (%%rsp), %%rax");
       load(mem->ty);
 
-      long mask = ((1L << mem->bit_width) - 1) << mem->bit_offset;
+      long mask = ones << mem->bit_offset;
       println("  mov $%ld, %%r9", ~mask);
       println("  and %%r9, %%rax");
       println("  or %%rdi, %%rax");
       store(node->ty);
+
+      // The value of the expression is the value of the bitfield
+      // after the assignment.
       println("  mov %%r8, %%rax");
+      if (!mem->ty->is_unsigned && mem->ty->kind != TY_BOOL) {
+        println("  shl $%d, %%rax", 64 - mem->bit_width);
+        println("  sar $%d, %%rax", 64 - mem->bit_width);
+      }
       return;
     }
 
